@@ -114,3 +114,39 @@ PROPS["C06"] = {
     "trusted_base": ["Real.sqrt stands for f64::sqrt in the theorems; the Float mirror uses C sqrt"],
     "assumptions": ["exact real arithmetic in the theorems"],
 }
+
+PROPS["C19"] = {
+    "title": "Arc length is bracketed by chord and control polygon and converges",
+    "gen_modules": ["Basis", "Length"],
+    "corr_n": (5000, 100000),
+    "search_n": (3000, 60000),
+    "technique": "Lean 4 theorems over any real normed space (bracket by induction on the recursion, halves shrink) on translated chord/polygon/subdivide kernels + Float mirror of the section_length model",
+    "level_text": "For every curve in any real normed space (1-D, 2-D, 3-D), every tolerance and every recursion depth: chord <= curve_length <= control polygon (induction over the subdivision "
+                  "recursion; splitting at 1/2 never lengthens the control polygon nor shortens the chords - triangle inequality on the generated subdivide4), every accepted piece's estimate lies in "
+                  "its own bracket, and reversal leaves chord and polygon of every piece unchanged. chord_length, control_polygon_length, subdivide4 and reverse are regenerated from the Rust source; "
+                  "the section_length loop is a hand model whose Float instance reproduces curve_length to 1e-9 relative on every sampled curve.",
+    "level_note": "Partial: the accuracy numbers (0.1 for e=0.01, 1e-3 for e=1e-8) and additivity within tolerance depend on the input-dependent recursion depth and are covered by the search "
+                  "(20000-segment polyline) only. The stack loop itself is hand-modelled (recursion with fuel 64 >= log2(e/1e-12)). " + COMMON_NOTE,
+    "rule": "curves in a 100-unit box of kinds random, loop, straight, point, coincident controls, cusp/loop; e in {1e-2,1e-4,1e-8}. corr: Float mirror of the model vs curve_length, chord, polygon. "
+            "search: bracket, accuracy against a 20000-segment polyline, reversal, additivity over a random split. Non-trivial: not a point curve; distinct by input.",
+    "trusted_base": ["hand model Model/Length.lean of the section_length stack loop (tied by the Float mirror)"],
+    "assumptions": ["exact real arithmetic in the theorems"],
+}
+
+PROPS["C15"] = {
+    "title": "Walking a curve tiles the parameter range with the requested spacing",
+    "gen_modules": ["Basis", "Walk"],
+    "corr_n": (2000, 40000),
+    "search_n": (2000, 40000),
+    "technique": "Lean 4 theorems about the walk iterators translated WHOLE from walk.rs (inner loop included, as an opaque fuel iteration) + bit-exact Float mirror of the iterators run to exhaustion",
+    "level_text": "walk_curve_unevenly(n): theorem that the generated iterator yields exactly n sections [k/n,(k+1)/n] tiling [0,1] exactly (first starts at 0, last ends at exactly 1, equal width). "
+                  "walk_curve_evenly: for ANY curve, distance, tolerance and whatever the step controller inside the loop computes: None is returned exactly when the walk stands at >= 1; each section "
+                  "starts where the walk stood, ends at or before 1 and the walk then stands at its end; hence the sections of a finished walk tile [0,1] exactly (even_tiling, induction over the run). "
+                  "The constructor starts at 0 with positive distance and tolerance. The generated iterators (Float) reproduce the implementation's sections bit for bit.",
+    "level_note": "Partial: termination (a lower bound on the increments) and the chord-length accuracy within max_error (convergence of the controller within 32 iterations) are not theorems; "
+                  "they are covered by the search on non-vanishing-speed curves. vary_by is checked on the real code only. " + COMMON_NOTE,
+    "rule": "corr: even walks (distance 0.5%..200% of the length, max_error 1..25% of it, up to 3000 sections) and uneven walks n in 1..300, compared section by section with the generated iterators. "
+            "search: tiling exactness, chord spacing on non-vanishing-speed curves, termination cap, uneven counts/widths, vary_by tiling. Non-trivial: more than one section; distinct by input.",
+    "trusted_base": ["iterFuel 64 stands for the loop bounded by MAX_ITERATIONS = 32"],
+    "assumptions": ["exact arithmetic in the theorems; n as f64 is exact (n < 2^53)"],
+}
